@@ -112,7 +112,7 @@ def rxso3_Ws(x):
     C[sigma_larger] = (scale[sigma_larger] - 1.0) / sigma[sigma_larger]
     sigma_c3, scale_c3, sigma2_c3 = sigma[condition3], scale[condition3], sigma2[condition3]
     A[condition3] = (1.0 + (sigma_c3 - 1.0) * scale_c3) / sigma2_c3
-    B[condition3] = (0.5 * sigma2_c3 * scale_c3 + scale_c3 - 1.0 - sigma2_c3 * scale_c3) / (sigma2_c3 * sigma_c3)
+    B[condition3] = (0.5 * sigma2_c3 * scale_c3 + scale_c3 - 1.0 - sigma_c3 * scale_c3) / (sigma2_c3 * sigma_c3)
 
     # condition4
     sigma_c4, sigma2_c4, scale_c4 = sigma[condition4], sigma2[condition4], scale[condition4]
